@@ -7,6 +7,7 @@ CONSTANTS
   EraSecs = 64
   Epoch <- EpochScaled
   ForwardOnlyEraUnfold = TRUE
+  WholeSecondUnfold = TRUE
   RefSecs <- RefAll
   RefNs <- RefNsOne
   Offs <- OffAll
